@@ -12,6 +12,7 @@ mod wa_exec;
 mod wa_plan;
 mod wb_exec;
 mod wb_plan;
+mod wc;
 mod codec_dns;
 
 fn arg(args: &[String], name: &str) -> Option<String> {
